@@ -30,6 +30,12 @@ PID = "C20"
 MODS = ["acryo._utils", "acryo._rotation", "acryo.molecules._rotation", "acryo.molecules._group", "acryo.molecules._cut", "acryo.molecules.core", "acryo.pick._base", "acryo.pick._concrete"]
 
 
+def _real_ndi():
+    import scipy.ndimage
+
+    return scipy.ndimage
+
+
 def zr(x):
     return _real(lift(_coerce(x)))
 
@@ -577,7 +583,7 @@ def sec_template(rec, shape=(4, 2, 6), K=3, patches=None):
         return TagArr(np.shape(inp), r)
 
     PB.affine_transform = aff
-    PB.spline_filter = lambda inp, **kw: inp
+    PB.spline_filter = stubs.like(_real_ndi().spline_filter, lambda inp, *a, **kw: inp)
     quats = _quats(K)
     template = np.arange(int(np.prod(shape)), dtype=np.float32).reshape(shape)
     tag = f"template[{shape},K={K}]"
@@ -678,8 +684,8 @@ def sec_template(rec, shape=(4, 2, 6), K=3, patches=None):
         return to_symarray((pat == k).astype(np.float32))
 
     PC.ncc_landscape_no_pad = lands
-    PC.find_maxima = lambda img, dist, thr: to_symarray([q])
-    PC._sample_score = lambda img, pos: np.ones(1, dtype=np.float32)
+    PC.find_maxima = stubs.like(PC.find_maxima, lambda img, dist, thr, *a, **k: to_symarray([q]))
+    PC._sample_score = stubs.like(PC._sample_score, lambda img, pos, *a, **k: np.ones(1, dtype=np.float32))
 
     def pick():
         tm, params, depth, _ = build()
@@ -717,8 +723,8 @@ def sec_tm_chunks(rec, shape=(4, 2, 6), N=(12, 6, 8), chunks=((6, 6), (6,), (8,)
                 "acryo/pick/_concrete.py:ZNCCTemplateMatcher.pick_molecules")
     rec.assume("real dask map_overlap on an image of position codes; pick_in_chunk idealised: a particle is reported iff its centre is on the landscape of the block: (s+1)/2 <= p <= n - (s+3)/2 on every axis (C04: entry x <-> template at x+1), "
                "centres are at landscape nodes: p - (s+1)/2 is an integer; a particle one node outside the landscape may leave a maximum on the nearest border entry of the landscape (its shoulder)")
-    PB.affine_transform = lambda inp, mtx, **kw: np.asarray(inp)
-    PB.spline_filter = lambda inp, **kw: inp
+    PB.affine_transform = stubs.like(_real_ndi().affine_transform, lambda inp, mtx, *a, **kw: np.asarray(inp))
+    PB.spline_filter = stubs.like(_real_ndi().spline_filter, lambda inp, *a, **kw: inp)
     img = coded_image(N)
     g = [real(f"p0_g{a}") for a in range(3)]
     scale = real("scale")
